@@ -126,6 +126,13 @@ function ops.pack1(a) return hex(string.pack(tostr(a[1]), toint(a[2]))) end
 function ops.pack2(a) return hex(string.pack(tostr(a[1]), toint(a[2]), toint(a[3]))) end
 function ops.packs(a) return hex(string.pack(tostr(a[1]), tostr(a[2]))) end
 function ops.packsize(a) return int(string.packsize(tostr(a[1]))) end
+function ops.fmt0(a) return hex(string.format(tostr(a[1]))) end
+function ops.fmti(a) return hex(string.format(tostr(a[1]), toint(a[2]))) end
+function ops.fmtii(a) return hex(string.format(tostr(a[1]), toint(a[2]), toint(a[3]))) end
+function ops.fmts(a) return hex(string.format(tostr(a[1]), tostr(a[2]))) end
+function ops.fmtis(a) return hex(string.format(tostr(a[1]), toint(a[2]), tostr(a[3]))) end
+function ops.fmtsi(a) return hex(string.format(tostr(a[1]), tostr(a[2]), toint(a[3]))) end
+function ops.fmtf(a) return hex(string.format(tostr(a[1]), tofloat(a[2]))) end
 function ops.unpack(a)
   local fmt = UNPACK_FORMATS[toint(a[1])]
   if not fmt then return '?unknown-format' end
